@@ -783,13 +783,17 @@ func (ex *Exec) wrapFacts(st *State, e Val, variadic Val) {
 		return
 	}
 	f := ex.declFun("errIs", []string{sInt, sInt, sInt, sInt}, sBool)
+	// completeness: the new error matches a target only through one of its arguments
+	only := []string{app("bvsgt", variadic.L[2], bvLit(4, 64))}
 	for i := 0; i < 4; i++ {
 		idx := bvLit(uint64(i), 64)
 		el := ex.loadElem(st, E, variadic.L[0], app("bvadd", variadic.L[1], idx))
 		inRange := app("bvslt", idx, variadic.L[2])
 		isErrTag := not(eq(el.L[0], "0"))
 		ex.assume("true", implies(and(inRange, isErrTag), app(f, e.L[0], e.L[1], el.L[0], el.L[1])))
+		only = append(only, and(inRange, isErrTag, or(and(eq(el.L[0], "qt0"), eq(el.L[1], "qt1")), app(f, el.L[0], el.L[1], "qt0", "qt1"))))
 	}
+	ex.emit("(assert (forall ((qt0 Int) (qt1 Int)) (! (=> " + app(f, e.L[0], e.L[1], "qt0", "qt1") + " " + or(only...) + ") :pattern (" + app(f, e.L[0], e.L[1], "qt0", "qt1") + "))))")
 }
 
 // cryptoEvent lets contracts constrain the exact arguments handed to a primitive (callsite clauses).
